@@ -13,7 +13,7 @@ PROP = {
     # (F11c - stale rsync old/ directory - is repaired in /repo by e1f99c61 and must not occur.)
     # strict-new 1: the candidate classes found after the known-findings list was fixed count as well (numbers from 20:
     # publisher-half-created, revocation-at-parent-skipped, deleted-ca-objects-left-in-repository, deleted-ca-leftover-stores).
-    'extra': {'quick': {'strict-atomic': 1, 'strict': 1, 'strict-new': 0}, 'thorough': {'strict-atomic': 1, 'strict': 1, 'strict-new': 0, 'plan': 'all'}},
+    'extra': {'quick': {'strict-atomic': 1, 'strict': 1, 'strict-new': 1}, 'thorough': {'strict-atomic': 1, 'strict': 1, 'strict-new': 1, 'plan': 'all'}},
     'harness_timeout': 6000,
     'replay_header': C08_HEADER,
     'replay_footer': "Eval vm_compute in (failing agrees base_index cases).\nEval vm_compute in (failing c08_ok base_index cases).",
